@@ -52,6 +52,7 @@ class Path:
         self._imul = {}
         self._fmul = {}
         self._idiv = {}
+        self.defs = []               # (fresh constant, definition or None) in creation order
         self.p = None                # field prime for fmul bridging (set by ghost backend)
 
     # -- facts -------------------------------------------------------------
@@ -66,9 +67,14 @@ class Path:
     def hyps(self):
         return self.axioms + self.assumes + self.pc
 
-    def fresh(self, name, sort="int"):
+    def fresh(self, name, sort="int", define=None):
+        """A fresh constant.  `define(val)` (optional) computes its intended value from an
+        evaluator `val(term) -> int`: used by the concrete refuter to extend an assignment of the
+        input symbols to all derived symbols without solving."""
         n = "%s!%d" % (name, next(self.fresh_ctr))
-        return z3.Int(n) if sort == "int" else z3.Bool(n)
+        v = z3.Int(n) if sort == "int" else z3.Bool(n)
+        self.defs.append((v, define))
+        return v
 
     # -- decisions ---------------------------------------------------------
     def decide(self, cond):
@@ -313,8 +319,8 @@ def _chain(x, k):
     owner = P.__dict__.setdefault("_bitview_owner", {})
     while len(v["b"]) <= k:
         i = len(v["b"])
-        b = P.fresh("bit%d" % i)
-        q = P.fresh("shr%d" % (i + 1))
+        b = P.fresh("bit%d" % i, define=(lambda val, x=x, i=i: (val(x) >> i) & 1))
+        q = P.fresh("shr%d" % (i + 1), define=(lambda val, x=x, i=i: val(x) >> (i + 1)))
         P.axiom(z3.And(b >= 0, b <= 1))
         P.axiom(v["q"][i] == 2 * q + b)
         v["b"].append(b)
@@ -624,7 +630,7 @@ def _powmod(x, e, m):
     key = ("powinv", z3.simplify(x).get_id())
     memo = P.__dict__.setdefault("_powinv", {})
     if key not in memo:
-        r = P.fresh("fermat")
+        r = P.fresh("fermat", define=(lambda val, x=x, m=m: pow(val(x), m - 2, m)))
         xm = z3.simplify(x % m)
         P.axiom(z3.And(r >= 0, r < m))
         P.axiom(z3.Implies(xm == 0, r == 0))
